@@ -35,13 +35,16 @@ type Req struct {
 }
 
 type Case struct {
-	Class  string            `json:"class"`
-	Corpus model.Corpus      `json:"corpus,omitempty"`
-	Synth  gen.Synth         `json:"synth"`
-	Bulk   int               `json:"bulk"` // documents per bulk
-	Reqs   []Req             `json:"reqs"`
-	Opts   harness.StoreOpts `json:"opts"`
-	Tiny   uint64            `json:"tiny_cache"` // cache size of form (d)
+	// SecondSeal: after the freshly sealed form was checked, a second store in the same process
+	// ingests half of the documents and seals; the first form is checked again
+	SecondSeal bool              `json:"second_seal,omitempty"`
+	Class      string            `json:"class"`
+	Corpus     model.Corpus      `json:"corpus,omitempty"`
+	Synth      gen.Synth         `json:"synth"`
+	Bulk       int               `json:"bulk"` // documents per bulk
+	Reqs       []Req             `json:"reqs"`
+	Opts       harness.StoreOpts `json:"opts"`
+	Tiny       uint64            `json:"tiny_cache"` // cache size of form (d)
 }
 
 func (c *Case) docs() model.Corpus {
@@ -93,6 +96,7 @@ func genCase(t *rapid.T) Case {
 		DocBlockSize: rapid.SampledFrom([]int{0, 128, 4096, 1 << 20}).Draw(t, "docblock"),
 	}
 	c.Tiny = rapid.SampledFrom([]uint64{8 << 10, 64 << 10, 1 << 20}).Draw(t, "tiny")
+	c.SecondSeal = c.Class != "lid-block" && c.Class != "lid-exact" && rapid.IntRange(0, 3).Draw(t, "secondseal") == 3
 	docs := c.docs()
 	nreq := rapid.IntRange(6, 16).Draw(t, "nreq")
 	for i := 0; i < nreq; i++ {
@@ -215,6 +219,30 @@ func runCase(c Case) (evid.Result, error) {
 	st.Seal()
 	if err := battery(&c, docs, st, "sealed-preloaded", &res); err != nil {
 		return res, err
+	}
+	if c.SecondSeal && len(docs) > 0 {
+		// another fraction is sealed in the same process (the sealing helpers are pooled); the
+		// fraction sealed before it must go on answering from what it keeps in memory
+		dir2 := evid.ScratchDir("c03b")
+		other, err := harness.OpenStore(dir2, c.Opts)
+		if err != nil {
+			return res, err
+		}
+		half := docs[:len(docs)/2+1]
+		for pos := 0; pos < len(half); pos += b {
+			if err := other.Bulk(half[pos:min(len(half), pos+b)]); err != nil {
+				other.Close()
+				return res, evid.Failf("bulk-error", "%v", err)
+			}
+		}
+		other.WaitIdle()
+		other.Seal()
+		other.Close()
+		_ = os.RemoveAll(dir2)
+		res.Labels = append(res.Labels, "another-sealing-in-the-same-process")
+		if err := battery(&c, docs, st, "sealed-preloaded, after another fraction was sealed in the process", &res); err != nil {
+			return res, err
+		}
 	}
 	// measured, not assumed: does some structure span more than one on-disk block?
 	for _, f := range st.FM.GetAllFracs() {
